@@ -168,6 +168,16 @@ pub struct InnerState {
     /// tokio operations until the task's cooperative budget is used up (as a future draining
     /// a channel that always has another item does), and only then returns Pending
     pub busy: bool,
+    /// scripted latencies are spent inside `call()` itself (synchronous work before the future
+    /// is returned - Tower allows it) instead of inside the returned future; see clock::burn
+    pub latency_inside_call: bool,
+    /// the largest number of inner calls that were inside the service at the start of a call
+    /// (a call whose future is being dropped right now still counts)
+    pub peak_live: usize,
+    /// called from inside the Drop of a still-pending inner call future, before the call is
+    /// marked as dropped (a response future that is slow to drop: whoever is polled from here
+    /// finds the call still inside the service)
+    pub on_drop: Option<Arc<dyn Fn(usize) + Send + Sync>>,
 }
 
 pub struct HeldReady {
@@ -251,6 +261,9 @@ pub fn new_shared(origin: tokio::time::Instant, mode: Mode) -> Shared {
         held: Vec::new(),
         sync_panic_calls: Vec::new(),
         busy: false,
+        latency_inside_call: false,
+        peak_live: 0,
+        on_drop: None,
     }))
 }
 
@@ -377,6 +390,7 @@ impl tower::Service<Req> for GatedInner {
         }
         let mut sleep = None;
         let mut never = false;
+        let mut burn_ms = 0u64;
         if let Mode::Script = g.mode {
             let plan = g.script.pop_front().unwrap_or(g.default_plan);
             if plan.never {
@@ -384,16 +398,27 @@ impl tower::Service<Req> for GatedInner {
             } else if plan.latency_ms == 0 {
                 rec.gate = Some(plan.out);
                 rec.gate_ms = Some(now);
+            } else if g.latency_inside_call {
+                rec.gate = Some(plan.out);
+                burn_ms = plan.latency_ms;
             } else {
                 rec.gate = Some(plan.out);
                 sleep = Some(Box::pin(tokio::time::sleep(Duration::from_millis(plan.latency_ms))));
             }
         }
         g.calls.push(rec);
+        let live_now = g.live();
+        g.peak_live = g.peak_live.max(live_now);
         let cb = g.on_call.clone();
         drop(g);
         if let Some(cb) = cb {
             cb(k);
+        }
+        if burn_ms > 0 {
+            crate::clock::burn(Duration::from_millis(burn_ms));
+            let mut g = self.st.lock().unwrap();
+            let now = g.now_ms();
+            g.calls[k].gate_ms = Some(now);
         }
         GatedFuture { st: self.st.clone(), k, sleep, never, done: false }
     }
@@ -474,6 +499,11 @@ impl Drop for GatedFuture {
     fn drop(&mut self) {
         if self.done {
             return;
+        }
+        // a future that is slow to drop: the hook runs while the call still counts as inside
+        let hook = self.st.lock().ok().and_then(|g| if g.calls[self.k].status == CallStatus::Pending { g.on_drop.clone() } else { None });
+        if let Some(h) = hook {
+            h(self.k);
         }
         if let Ok(mut g) = self.st.lock() {
             let now = g.now_ms();
